@@ -734,6 +734,46 @@ def paths_need_fact(cfg, src_ids, dst_ids, pred, avoid=(), exc=False):
     return True
 
 
+def eval_under(test, env, funcnode=None):
+    """three-valued truth of a condition when the atoms in env (source text -> bool; `X is None` is an atom of its own) are
+    fixed: True / False / None (not determined).  Locals bound once are read through."""
+    if funcnode is not None:
+        test = resolved(test, funcnode)
+    if isinstance(test, ast.UnaryOp) and isinstance(test.op, ast.Not):
+        v = eval_under(test.operand, env)
+        return None if v is None else (not v)
+    if isinstance(test, ast.BoolOp):
+        vals = [eval_under(v, env) for v in test.values]
+        if isinstance(test.op, ast.And):
+            return False if any(v is False for v in vals) else (True if all(v is True for v in vals) else None)
+        return True if any(v is True for v in vals) else (False if all(v is False for v in vals) else None)
+    if isinstance(test, ast.Compare) and len(test.ops) == 1 and isinstance(test.ops[0], (ast.Is, ast.IsNot)) and \
+            isinstance(test.comparators[0], ast.Constant) and test.comparators[0].value is None:
+        v = env.get(f'{src(test.left)} is None')
+        if v is None:
+            return None
+        return v if isinstance(test.ops[0], ast.Is) else (not v)
+    return env.get(src(test))
+
+
+def reach_under(cfg, funcnode, env, exc=True):
+    """CFG nodes reachable from the entry when the atoms of env are fixed (a finite abstraction of the path conditions:
+    tests that env decides are followed on one side only)"""
+    seen, stack = set(), [cfg.entry]
+    while stack:
+        n = stack.pop()
+        if n in seen:
+            continue
+        seen.add(n)
+        t = cfg.nodes[n]
+        known = eval_under(t.ast, env, funcnode) if t.kind == 'test' and not isinstance(t.ast, ast.stmt) else None
+        for b, lab in cfg.succ[n]:
+            if (known is True and lab == 'F') or (known is False and lab == 'T') or (lab == 'exc' and not exc):
+                continue
+            stack.append(b)
+    return seen
+
+
 def resolved(expr, funcnode, depth=4):
     """copy of expr in which every local that is bound exactly once in funcnode (a plain assignment) is replaced by the
     expression it was bound to: `frame = x.encode(); return frame + EOL` reads as `x.encode() + EOL`"""
